@@ -92,6 +92,8 @@ class Tracer(object):
         self.submits = 0
         self.with_monitors = with_monitors
         self.watch = monitors.CommitWatch(self.sim)
+        self.stepmon = monitors.StepMonitors(self.sim)
+        self._n_err = 0
         self.violations = []                                 # (event no, violation dict)
         self._viol_seen = set()
         self.internal = []                                   # harness-side inconsistencies (reported as disagreement)
@@ -527,8 +529,10 @@ class Tracer(object):
         sim = self.sim
         found = list(self.watch.step())
         del self.watch.out[:]
-        found += (monitors.sm_safety(sim) + monitors.sm_state(sim) + monitors.leaders_per_term(sim)
-                  + monitors.callbacks_contract(sim) + monitors.errors(sim))
+        found += self.stepmon.step()
+        if len(sim.errors) > self._n_err:
+            found += monitors.errors(sim)
+            self._n_err = len(sim.errors)
         for v in found:
             key = v["signature"]
             if key not in self._viol_seen:
@@ -583,9 +587,24 @@ def brief_state(nodes):
             for n in nodes]
 
 
-def verify(tr):
+def verify_many(trs):
+    """One driver process for several traces (every trace starts with its {"N":..} line)."""
+    lines = []
+    for tr in trs:
+        lines.extend(tr.lines)
+    out = checklib.run_driver("core", lines) if lines else []
+    res = []
+    k = 0
+    for tr in trs:
+        res.append(verify(tr, out[k:k + len(tr.lines)]))
+        k += len(tr.lines)
+    return res
+
+
+def verify(tr, out=None):
     """None when every action was enabled and every state agreed; else the first mismatch."""
-    out = checklib.run_driver("core", tr.lines)
+    if out is None:
+        out = checklib.run_driver("core", tr.lines)
     if len(out) != len(tr.lines):
         return {"kind": "driver", "class": "driver:line-count", "note": "driver returned %d lines for %d" % (len(out), len(tr.lines))}
     last_state = None
